@@ -276,11 +276,13 @@ def MaskCnt(m, n):
 
 @spec('int1', 'int', ret='int1', abstract=True)
 def MaskPos(m, n):
-    # MaskPos[c] = number of selected positions before c  (the column of the compressed array that c maps to, if selected)
+    # MaskPos[c] = number of selected positions before c, for c = 0..n  (the column of the compressed array that c maps to, if
+    # selected; MaskPos[n] = MaskCnt)
     out, k = [], 0
     for c in range(n):
         out.append(k)
         k += 1 if m[c] != 0 else 0
+    out.append(k)
     return out
 
 
@@ -312,3 +314,9 @@ def QMask(q, nq, N):
 def Unit(i, n):
     # the unit string e_i of length n  (X_0, Z_0, X_1, Z_1, ... in the library's interleaved convention)
     return [1 if c == i else 0 for c in range(n)]
+
+
+@spec('int1', 'int1', 'int', ret='int1')
+def Expand(g, m, n):
+    # the string g of the selected positions padded with 0 (identity) on the unselected ones: inverse of Compress
+    return [g[MaskPos(m, n)[c]] if m[c] != 0 else 0 for c in range(n)]
